@@ -73,6 +73,9 @@ META = {
                   "grad modes (requires_grad, no_grad, inference_mode where autograd is not needed); keyword vs positional spellings; out= buffers; "
                   "LieTensor for every bmv/bvv/bvmv argument; user functions that raise inside forward / set_refpoint; outputs own their memory; "
                   "identity / zero matrices; batch sizes 5, 7, 3x3 and equal to n, m, p, T",
+    "round4": "big batches (2^14+1 … 2^16+1 items: item / split consistency bit for bit, exact equations on the last item); reference time equal "
+              "to the clock exactly and off by one; user sub-subclasses and direct System subclasses; time stamps above 2^24 / 2^53 with user "
+              "functions doing exact integer arithmetic on t (time base T0); grad-mode orders on shapes fresh in the process, backward() in grad mode",
     "partial": ["IEEE rounding is not modelled: the float code is compared with the exact model at 64·eps·(sum of "
                 "absolute term magnitudes)",
                 "the explicit second-order constant (Fn.bnd, nls_second_order_explicit) is an upper bound, not the least constant",
@@ -375,6 +378,9 @@ def sig_events(evs):
 # ============================================================================= stream: clock
 
 def make_simple(P, kind):
+    if kind in ("nls2", "sysu"):
+        simple_nls_class(P)
+        return globals()["SimpleNLS2" if kind == "nls2" else "SimpleSys"]()
     if kind == "lti":
         return P.module.LTI(torch.tensor([[2.0]]), torch.tensor([[1.0]]), torch.tensor([[1.0]]), torch.tensor([[0.0]]))
     if kind == "ltv":
@@ -384,16 +390,32 @@ def make_simple(P, kind):
 
 
 def simple_nls_class(P):
-    """module-level (hence picklable) time dependent NLS: f = x/2 + u + t, g = x - u"""
+    """module-level (hence picklable) time dependent NLS: f = x/2 + u + (t mod 1000), g = x - u; the remainder is taken in
+    exact integer arithmetic on the time stamp, so clocks far above 2^24 / 2^53 are told apart"""
     if "SimpleNLS" not in globals():
         class SimpleNLS(P.module.NLS):
             def state_transition(self, state, input, t=None):
-                return state * 0.5 + input + torch.as_tensor(t).reshape(()).to(state.dtype)
+                return state * 0.5 + input + torch.remainder(torch.as_tensor(t).reshape(()), 1000).to(state.dtype)
 
             def observation(self, state, input, t=None):
                 return state - input
         SimpleNLS.__qualname__ = "SimpleNLS"
         globals()["SimpleNLS"] = SimpleNLS
+
+        class SimpleNLS2(SimpleNLS):            # a user subclass of a user subclass: only the observation is overridden
+            def observation(self, state, input, t=None):
+                return 2 * state - input
+        SimpleNLS2.__qualname__ = "SimpleNLS2"
+        globals()["SimpleNLS2"] = SimpleNLS2
+
+        class SimpleSys(P.module.System):       # derived from the base class directly: own equations, the library's clock
+            def state_transition(self, state, input, t=None):
+                return state * 3.0 - input
+
+            def observation(self, state, input, t=None):
+                return state + input
+        SimpleSys.__qualname__ = "SimpleSys"
+        globals()["SimpleSys"] = SimpleSys
     return globals()["SimpleNLS"]
 
 
@@ -584,10 +606,12 @@ def gen_multi_case(seed, quick):
     from another system's `.systime`; interleaved calls / resets; every system's clock must follow its own law"""
     rng = random.Random(seed)
     n = rng.choice([2, 2, 3])
-    systems = [rng.choice(["lti", "ltv", "nls"]) for _ in range(n)]
+    systems = [rng.choice(["lti", "ltv", "nls", "nls", "nls2", "sysu"]) for _ in range(n)]
     if rng.random() < 0.6:
         systems[1] = systems[0]             # a pair of the same class: one may become a copy of the other
-    slots = [{"v": rng.choice([-2, 0, 1, 3, 7, 19, 40]), "shape": rng.choice([0, 0, 0, 1])} for _ in range(rng.randint(1, 3))]
+    # kept time tensors: small values and time stamps above 2^24 / 2^53 (the simple NLS reads t mod 1000 exactly)
+    slots = [{"v": rng.choice([-2, 0, 1, 3, 7, 19, 40, 2 ** 24 + 1, 2 ** 24 + 3, 1_700_000_003, 2 ** 53 + 1]), "shape": rng.choice([0, 0, 0, 1])}
+             for _ in range(rng.randint(1, 3))]
     evs = []
     for _ in range(rng.randint(8, 18)):
         sidx, c = rng.randrange(n), rng.random()
@@ -658,6 +682,12 @@ CORPUS += [
      "events": [_c(0, "call"), {"s": 1, "ev": "copy", "of": 0, "how": "pickle"}, {"s": 0, "ev": "copy", "of": 1, "how": "deepcopy"}, _c(0, "call"), _c(1, "call"), _c(1, "call"),
                 _c(2, "call"), _c(0, "assign", {"from": 1}), _c(1, "reset", None), _c(0, "call")]},
 ]
+CORPUS += [
+    # time stamps above 2^24 / 2^53 and user subclasses (of NLS, of a user NLS, of System): each reads its own exact clock
+    {"systems": ["nls", "nls2", "sysu"], "slots": [{"v": 2 ** 24 + 1, "shape": 0}, {"v": 1_700_000_003, "shape": 0}, {"v": 2 ** 53 + 1, "shape": 0}],
+     "events": [_c(0, "assign", {"slot": 0}), _c(0, "call"), _c(0, "call"), _c(1, "reset", {"slot": 1}), _c(1, "call"), _c(2, "assign", {"slot": 2}), _c(2, "call"),
+                _c(1, "call"), _c(0, "assign", {"slot": 2}), _c(0, "call"), _c(0, "call"), _c(1, "assign", {"from": 0}), _c(1, "call"), _c(2, "call"), _c(0, "reset", None), _c(0, "call")]},
+]
 for _k, _cs in enumerate(CORPUS):
     _cs.update({"kind": "multi", "corpus": _k})
 
@@ -698,7 +728,8 @@ def multi_line(case):
                     toks.append(f"{sidx}:{word}=" + to_wire(sl["v"]))
             else:
                 toks.append(f"{sidx}:{word}=" + to_wire(src["v"]))
-    return f"c15.mclock {len(case['systems'])} " + " ".join(case["systems"]) + " " + " ".join(toks)
+    mk = {"nls2": "nls", "sysu": "lti"}      # user subclasses: the clock is the one of the class they derive from
+    return f"c15.mclock {len(case['systems'])} " + " ".join(mk.get(k_, k_) for k_ in case["systems"]) + " " + " ".join(toks)
 
 
 def run_multi_impl(ctx: Ctx, case):
@@ -720,9 +751,9 @@ def run_multi_impl(ctx: Ctx, case):
                 out = sys_(x, u)
                 expect[sidx] += 1
                 # the equations at the system's own time (the NLS is time dependent)
-                want = (2.0 * 1.5 + 0.25, 1.5) if kind != "nls" else (0.75 + 0.25 + clocks[sidx], 1.25)
+                want = {"nls": (1.0 + clocks[sidx] % 1000, 1.25), "nls2": (1.0 + clocks[sidx] % 1000, 2.75), "sysu": (4.25, 1.75)}.get(kind, (3.25, 1.5))
                 got = (float(out[0].reshape(-1)[0]), float(out[1].reshape(-1)[0]))
-                if abs(got[0] - want[0]) > 1e-5 * (1 + abs(want[0])) or abs(got[1] - want[1]) > 1e-6:
+                if abs(got[0] - want[0]) > 1e-5 or abs(got[1] - want[1]) > 1e-6:
                     ctx.fail({**pub(case), "at": i}, f"multi-eq: call {i} on system {sidx} ({kind}) at its time {clocks[sidx]} returned {got}, its equations give {want}")
                     return None
             elif ev == "copy":
@@ -732,7 +763,7 @@ def run_multi_impl(ctx: Ctx, case):
                 expect[sidx] = clocks[e["of"]]
             elif ev == "xraise":
                 try:
-                    sys_(torch.ones(2, 3, 4), torch.ones(5)) if kind != "nls" else sys_(torch.ones(2), torch.ones(3))
+                    sys_(torch.ones(2, 3, 4), torch.ones(5)) if kind not in ("nls", "nls2") else sys_(torch.ones(2), torch.ones(3))
                 except Exception:
                     pass
             elif e["t"] is None:
@@ -754,7 +785,7 @@ def run_multi_impl(ctx: Ctx, case):
                         sys_.systime = tv
                     elif ev == "reset":
                         sys_.reset(tv)
-                    elif kind == "nls":
+                    elif kind in ("nls", "nls2"):
                         sys_.set_refpoint(state=x, input=u, t=torch.as_tensor(tv))
                     else:
                         sys_.set_refpoint(t=torch.as_tensor(tv))
@@ -1153,6 +1184,11 @@ def _check_lin(ctx: Ctx, case):
                 elif mode == "grad":
                     xg = x.detach().clone().requires_grad_()
                     o_ = sys_(state=xg, input=u) if e.get("kw") else sys_(xg, u)
+                    # autograd works through the call whatever ran before under no_grad / inference_mode
+                    (o_[0].sum() + o_[1].sum()).backward()
+                    if xg.grad is None or xg.grad.shape != xg.shape or not bool(torch.isfinite(xg.grad).all()):
+                        ctx.fail({**pub(case), "at": i}, "grad: no finite gradient reached a requires_grad state through the call")
+                        raise _Abort()
                     out = (o_[0].detach(), o_[1].detach())
                 elif mode == "no_grad":
                     with torch.no_grad():
@@ -1344,6 +1380,8 @@ def _check_lin(ctx: Ctx, case):
                             ctx.fail({**pub(case), "at": i}, "refpoint-return: set_refpoint does not return the system")
                         if ltv:
                             clock_expect = e["t"]["v"]
+            except _Abort:
+                raise
             except Exception as ex:
                 ctx.fail({**pub(case), "at": i}, f"clock-raises: {ev} raised {type(ex).__name__}: {str(ex)[:100]}")
                 ok = False
@@ -1547,15 +1585,82 @@ def gen_nls_case(seed, quick):
             evs.insert(min(len(evs), pos + 1 + rng.randint(0, 2)), {"ev": "read"})
     if not any(e["ev"] == "read" for e in evs):
         evs.append({"ev": "read"})
-    return {"kind": "nls", "seed": seed, "nx": nx, "nu": nu, "dtype": dtype, "fs": fs, "gs": gs, "events": evs, "slots": slots}
+    case = {"kind": "nls", "seed": seed, "nx": nx, "nu": nu, "dtype": dtype, "fs": fs, "gs": gs, "events": evs, "slots": slots, "T0": 0}
+    # extreme-but-valid clocks with the lower-precision dtype: time stamps above 2^24 (float32) / 2^53 (float64), a UNIX
+    # epoch; the user's functions subtract the epoch T0 in exact integer arithmetic
+    if rng.random() < 0.3:
+        T0 = rng.choice([2 ** 24, 2 ** 24, 1_700_000_000, 2 ** 31, 2 ** 40] + ([2 ** 53] if dtype == "float64" else []))
+        shift_times(case, T0, rng)
+    # exact coincidences: a reference time equal to the clock exactly, or off by one; a time set to the value it already has
+    for e_ in case["events"]:
+        if e_["ev"] == "ref" and isinstance(e_.get("t"), dict) and "slot" not in e_["t"] and rng.random() < 0.35:
+            e_["t"] = {"rel": rng.choice([-1, 0, 0, 1]), "as": "int64", "dim1": rng.random() < 0.3}
+        elif e_["ev"] == "assign" and "slot" not in e_["t"] and rng.random() < 0.15:
+            e_["t"] = {"rel": 0, "as": rng.choice(["py", "int64"])}
+    return resolve_rel(case)
+
+
+def resolve_rel(case):
+    """times given relative to the clock (`{"rel": r}`: clock + r at that moment) become literal integers; the clock
+    follows its law, which is a function of the event list"""
+    clock, twin = 0, 0
+    for e in case["events"]:
+        k_ = e["ev"]
+        if isinstance(e.get("t"), dict) and "rel" in e["t"]:
+            e["t"] = {"v": clock + e["t"]["rel"], "as": e["t"].get("as", "int64"), "dim1": e["t"].get("dim1", False), "coincidence": e["t"]["rel"]}
+        if k_ == "call":
+            clock += 1
+        elif k_ == "reset":
+            clock = 0 if e["t"] is None else int(e["t"]["v"])
+        elif k_ == "assign":
+            clock = int(e["t"]["v"])
+        elif k_ == "twin":
+            if e["op"] == "from_main":
+                twin = clock
+            elif e["op"] == "call":
+                twin += 1
+            elif e["op"] == "reset":
+                twin = 0
+            else:
+                clock = twin
+    return case
+
+
+def shift_times(case, T0, rng):
+    """move a history to the time base T0: every time that is set is T0 + (small integer), as int64 / python int"""
+    case["T0"] = T0
+    out = [{"ev": "assign", "t": {"v": T0 + rng.choice([0, 1, 3]), "as": rng.choice(["py", "int64"])}}]
+    for e in case["events"]:
+        e = dict(e)
+        if e["ev"] == "reset":
+            e["t"] = {"v": T0 + (0 if e["t"] is None else int(e["t"]["v"])), "as": rng.choice(["py", "int64"])}
+        elif e["ev"] == "assign":
+            e["t"] = dict(e["t"], v=T0 + int(e["t"]["v"]))
+            if e["t"].get("as") not in ("py", "int64", "slot"):
+                e["t"]["as"] = "int64"
+        elif e["ev"] in ("ref", "refraise") and isinstance(e.get("t"), dict):
+            e["t"] = dict(e["t"], v=T0 + int(e["t"]["v"]))
+            if e["t"].get("as") != "slot":
+                e["t"]["as"] = "int64"
+        elif e["ev"] == "twin" and e["op"] == "to_main":
+            e["op"] = "call"
+        elif e["ev"] == "clone" and e["op"] == "reset":
+            e["t"] = T0 + int(e["t"])
+        out.append(e)
+    case["events"] = out
+    case["slots"] = [dict(sl, v=T0 + sl["v"]) for sl in case["slots"]]
+    return case
 
 
 def make_nls(P, case):
     fs, gs, nx, nu = case["fs"], case["gs"], case["nx"], case["nu"]
+    T0 = case.get("T0", 0)
 
     class TreeNLS(P.module.NLS):
         def _vals(self, state, input, t):
-            tt = torch.as_tensor(t).reshape(()).to(state.dtype)
+            # exact integer arithmetic on the time stamp BEFORE any float conversion (an int64 clock of 2^24 + 1, a UNIX
+            # epoch, 2^53 + 1 … minus the epoch of the experiment), as a user function with a large time base does
+            tt = (torch.as_tensor(t).reshape(()) - T0).to(state.dtype)
             return [state[..., i] for i in range(nx)] + [input[..., j] for j in range(nu)] + [tt]
 
         bad = False
@@ -1669,8 +1774,18 @@ def nls_model_events(case):
 
 def nls_line(case, alias_t, alias_x):
     toks = []
+    T0, tv = case.get("T0", 0), case["nx"] + case["nu"]
+
+    def shift(t):        # the model's clock is the absolute integer; the user's function subtracts its epoch exactly
+        if t[0] == "V":
+            return ("-", t, ("C", False, T0, 1)) if (t[1] == tv and T0) else t
+        if t[0] == "C":
+            return t
+        if t[0] in "+-*":
+            return (t[0], shift(t[1]), shift(t[2]))
+        return (t[0], shift(t[1])) + tuple(t[2:])
     for t in case["fs"] + case["gs"]:
-        tree_tokens(t, toks)
+        tree_tokens(shift(t), toks)
     ev = [tok for _, tok in nls_model_events(case)]
     # third flag 1: error paths as the code has them (a raising set_refpoint / forward leaves a partial update behind —
     # outside the property, see notes; the model follows the code there)
@@ -1785,6 +1900,7 @@ def _check_nls(ctx: Ctx, case, model_doc=None, model_alias=None, oracle_budget=N
     ok = True
     handed = []                               # [tensor, expected content]: the system never modifies the caller's tensors
     sim = nls_sim(case)
+    T0 = case.get("T0", 0)
     objs = {"lastX": None, "lastU": None, "refX": None, "refU": None, "refT": None}
     rr = random.Random(case["seed"] ^ 0x5EED)
 
@@ -1832,8 +1948,8 @@ def _check_nls(ctx: Ctx, case, model_doc=None, model_alias=None, oracle_budget=N
                 return False
             got = f.double().tolist() + g_.double().tolist()
             # oracle: outputs = f(x,u,clock), g(x,u,clock) by the independent evaluator
-            env = [mp.mpf(v) for v in e["x"]] + [mp.mpf(v) for v in e["u"]] + [mp.mpf(clock)]
-            ea = [abs(v) for v in e["x"]] + [abs(v) for v in e["u"]] + [abs(clock)]
+            env = [mp.mpf(v) for v in e["x"]] + [mp.mpf(v) for v in e["u"]] + [mp.mpf(clock - T0)]
+            ea = [abs(v) for v in e["x"]] + [abs(v) for v in e["u"]] + [abs(clock - T0)]
             for j, (tr, gv) in enumerate(zip(case["fs"] + case["gs"], got)):
                 want = tree_mp(tr, env)
                 mg_ = tree_mag(tr, ea, nv)[0]
@@ -1892,10 +2008,12 @@ def _check_nls(ctx: Ctx, case, model_doc=None, model_alias=None, oracle_budget=N
                 if e["t"] is None or e["t"] == "live":
                     ts, mode = clock, ("default" if e["t"] is None else "live")
                 elif "slot" in e["t"]:
-                    ts, mode = float(e["t"]["v"]), "value"
+                    ts, mode = e["t"]["v"], "value"
                 else:
-                    ts, mode = float(mk_time(e["t"]).item()), "value"
-                ref = {"x": xs, "u": us, "t": ts, "mode": mode, "clock": clock, "ok": True}
+                    ts, mode = mk_time(e["t"]).item(), "value"          # int stays an exact int (clocks above 2^53)
+                # "t": the time as the user's functions see it (the integer offset T0 is subtracted exactly, before any
+                # float conversion); "tabs": the time stamp itself
+                ref = {"x": xs, "u": us, "t": ts - T0, "tabs": ts, "mode": mode, "clock": clock, "ok": True}
             elif ref is not None:
                 ref["ok"] = False          # a failed set_refpoint may leave a partial update behind (modelled, not judged)
             clock_expect = clock
@@ -1959,8 +2077,8 @@ def _check_nls(ctx: Ctx, case, model_doc=None, model_alias=None, oracle_budget=N
             elif clone is not None and e["op"] == "call":
                 fc, gc = clone(torch.tensor(e["x"], dtype=dt), torch.tensor(e["u"], dtype=dt))
                 gotc = fc.double().tolist() + gc.double().tolist()
-                envc = [mp.mpf(v) for v in e["x"]] + [mp.mpf(v) for v in e["u"]] + [mp.mpf(clone_clock)]
-                eac = [abs(v) for v in e["x"]] + [abs(v) for v in e["u"]] + [abs(clone_clock)]
+                envc = [mp.mpf(v) for v in e["x"]] + [mp.mpf(v) for v in e["u"]] + [mp.mpf(clone_clock - T0)]
+                eac = [abs(v) for v in e["x"]] + [abs(v) for v in e["u"]] + [abs(clone_clock - T0)]
                 for j, (tr, gv) in enumerate(zip(case["fs"] + case["gs"], gotc)):
                     want = tree_mp(tr, envc)
                     mg_ = tree_mag(tr, eac, nv)[0]
@@ -2049,7 +2167,7 @@ def _check_nls(ctx: Ctx, case, model_doc=None, model_alias=None, oracle_budget=N
                 verdict_doc = verdict_alias = None
                 if md and md[1] == "L" and shapes_ok and have_ref:
                     t_doc = ref["t"]
-                    t_alias = ref["t"] if ref["mode"] == "value" else clock
+                    t_alias = ref["t"] if ref["mode"] == "value" else clock - T0
                     if ref["ok"]:
                         tolsd = nls_tolerances(case, ref["x"], ref["u"], t_doc, t_doc, eps)
                         # the "caller's tensors are the reference point" semantics: Jacobians at their current content
@@ -2170,9 +2288,8 @@ def nls_oracles(ctx, case, cinfo, sys_, ref, got, eps, dt, rr, full):
                         ok = False
     # (2) the affine model reproduces f, g at the reference point (f, g through the real methods at t*)
     xs, us = torch.tensor(ref["x"], dtype=dt), torch.tensor(ref["u"], dtype=dt)
-    tt = torch.tensor(ts) if float(ts).is_integer() else torch.tensor(ts, dtype=torch.float64)
-    if float(ts).is_integer():
-        tt = torch.tensor(int(ts))
+    tabs = ref.get("tabs", ts)
+    tt = torch.tensor(int(tabs)) if (isinstance(tabs, int) or float(tabs).is_integer()) else torch.tensor(tabs, dtype=torch.float64)
     fr = sys_.state_transition(xs, us, tt).double()
     gr = sys_.observation(xs, us, tt).double()
     A, B, C, D = (torch.tensor(got[k_], dtype=torch.float64).reshape(s) for k_, s in
@@ -2287,6 +2404,7 @@ def gen_bmv_case(seed, quick):
             "scale": rng.choice([3.0, 3.0, 3.0] + ([1e-40, 1e40, 1e-9] if dtype == "float64" else [1e-8, 1e8])),
             "regimes": rng.random() < 0.3, "layout": [rng.choice(["c", "c", "T", "slice", "expand"]) for _ in range(3)],
             "lie": rng.random() < 0.15, "lie_which": rng.randint(1, 7), "mode": rng.choice(["plain", "plain", "plain", "grad", "no_grad", "inference"]),
+            "modes": (rng.sample(["grad", "plain", "no_grad", "inference", "grad"], 2) if rng.random() < 0.25 else []),
             "out": rng.random() < 0.15, "dyadic": rng.random() < 0.4, "dseed": rng.randrange(1 << 30)}
 
 
@@ -2447,6 +2565,16 @@ def check_bmv(ctx: Ctx, case):
                 ctx.fail(pub(case), f"out: {fn}(…, out=buf) did not leave the result in buf")
                 return False
         y = y.detach().clone() if mode in ("grad", "inference") else y
+        for md2 in case.get("modes", []):      # the same call again under other grad modes, in this order (same shapes / dtype)
+            a2 = [a_.detach().clone().requires_grad_() if (md2 == "grad" and type(a_) is torch.Tensor) else a_ for a_ in raw]
+            with (torch.no_grad() if md2 == "no_grad" else (torch.inference_mode() if md2 == "inference" else contextlib.nullcontext())):
+                y2 = getattr(P, fn)(*a2)
+            if md2 == "grad":
+                y2.sum().backward()
+                if any(a_.grad is None or not bool(torch.isfinite(a_.grad).all()) for a_ in a2 if type(a_) is torch.Tensor and a_.requires_grad):
+                    ctx.fail(pub(case), f"grad: no finite gradient through {fn} after calls under {case['modes']}")
+                    return False
+            case.setdefault("_y2", []).append((md2, y2.detach().clone().reshape(y.shape)))
         # the result owns its memory (no overlap with an argument, no stride-0 items) unless `out=` was given
         if not (case["out"] and fn != "bvmv") and mode == "plain":
             if any(y.untyped_storage().data_ptr() == a_.untyped_storage().data_ptr() for a_ in raw) or \
@@ -2482,6 +2610,10 @@ def check_bmv(ctx: Ctx, case):
     else:
         magall = (rd[0].abs().unsqueeze(-1).mT @ rd[1].abs() @ rd[2].abs().unsqueeze(-1)).squeeze(-1).squeeze(-1)
     case["_bb"] = (bb_line(fn, n, m, raw), list(bs), y.double().reshape(-1).tolist(), magall.reshape(-1).tolist())
+    for md2, y2 in case.pop("_y2", []):          # (memory layouts may differ between the modes: compared at round-off level)
+        if not bool(((y2.double() - y.double()).abs().reshape(-1) <= 64 * eps * magall.reshape(-1) + 1e-300).all()):
+            ctx.fail(pub(case), f"mode: {fn} under {md2} (after {mode}) returns other values than under {mode}")
+            return False
     idxs = [()] if not bs else [tuple(i) for i in torch.cartesian_prod(*[torch.arange(s) for s in bs]).reshape(-1, len(bs)).tolist()]
     if len(idxs) > 3:
         rr = random.Random(case["seed"] ^ 5)
@@ -2562,6 +2694,111 @@ def run_bmv(ctx: Ctx, cases):
 
 
 
+
+# ============================================================================= stream: big batches (chunk / block boundaries)
+
+BIG_SHAPES = [[16385], [65537], [128, 128], [129, 127], [1, 16385], [4097, 4], [3, 5, 1093]]
+
+
+def gen_big_case(seed, quick):
+    rng = random.Random(seed)
+    return {"kind": "big", "seed": seed, "fn": rng.choice(["bmv", "bvv", "bvmv", "lti"]), "shape": rng.choice(BIG_SHAPES), "n": rng.choice([1, 2, 3]),
+            "m": rng.choice([1, 2, 3]), "dtype": rng.choice(["float64", "float32"]), "matbatched": rng.random() < 0.6, "dseed": rng.randrange(1 << 30)}
+
+
+BIG_CORPUS = [{"kind": "big", "corpus": k_, "seed": 9300 + k_, "fn": fn_, "shape": sh_, "n": 2, "m": 3, "dtype": dt_, "matbatched": mb_, "dseed": 800 + k_}
+              for k_, (fn_, sh_, dt_, mb_) in enumerate([("bmv", [16385], "float64", True), ("bmv", [65537], "float32", False), ("bvv", [16385], "float32", True),
+                                                         ("bvmv", [65537], "float64", True), ("lti", [65537], "float64", False), ("lti", [129, 127], "float32", True),
+                                                         ("bmv", [3, 5, 1093], "float64", True), ("bvmv", [16385], "float32", False)])]
+
+
+def check_big(ctx: Ctx, case):
+    """2^14+1 … 2^16+1 items: every item equals the one-item call bit for bit (first, last, random), the result equals the
+    concatenation of the results on two parts for several cut points, and the exact equations hold on sampled items
+    including the LAST one"""
+    P = pp()
+    fn, n, m, shape = case["fn"], case["n"], case["m"], case["shape"]
+    dt, eps = DT(case["dtype"]), common.EPS[case["dtype"]]
+    g = torch.Generator().manual_seed(case["dseed"])
+    N = int(math.prod(shape))
+    mk = lambda b_, c_: (torch.round(torch.randn(tuple(b_) + tuple(c_), generator=g, dtype=torch.float64) * 16) / 16).to(dt)
+    mb = shape if case["matbatched"] else []
+    if fn == "bmv":
+        ops = [mk(mb, (n, m)), mk(shape, (m,))]
+        f = lambda a, b: P.bmv(a, b)
+    elif fn == "bvv":
+        ops = [mk(shape, (n,)), mk(shape, (m,))]
+        f = lambda a, b: P.bvv(a, b)
+    elif fn == "bvmv":
+        ops = [mk(shape, (n,)), mk(mb, (n, m)), mk(shape, (m,))]
+        f = lambda a, b, c: P.bvmv(a, b, c)
+    else:
+        A, B, c = mk(mb, (n, n)), mk(mb, (n, m)), mk(mb, (n,))
+        ops = [mk(shape, (n,)), mk(shape, (m,))]
+
+        def f(x_, u_, sel=None):
+            pick = (lambda t_: t_ if (sel is None or not case["matbatched"]) else t_.reshape((N,) + t_.shape[len(shape):])[sel])
+            return P.module.LTI(pick(A), pick(B), pick(A), pick(B), pick(c), pick(c))(x_, u_)[0]
+    core = {"bmv": [2, 1], "bvv": [1, 1], "bvmv": [1, 2, 1], "lti": [1, 1]}[fn]
+    flat = [t_.reshape((N,) + t_.shape[t_.ndim - c_:]) if t_.ndim - c_ == len(shape) else t_ for t_, c_ in zip(ops, core)]   # batch flattened
+    isb = [t_.ndim - c_ == len(shape) for t_, c_ in zip(ops, core)]
+    y = f(*ops)
+    nd_out = {"bmv": 1, "bvv": 2, "bvmv": 0, "lti": 1}[fn]
+    if tuple(y.shape[:y.ndim - nd_out]) != tuple(shape):
+        ctx.fail(pub(case), f"big-shape: {fn} on batch {shape} returned shape {tuple(y.shape)}")
+        return False
+    yf = y.reshape((N,) + tuple(y.shape[len(shape):]))
+    if not bool(torch.isfinite(yf).all()):
+        ctx.fail(pub(case), f"big-eq: {fn} on a batch of {N} items returned non-finite entries (first at item {int((~torch.isfinite(yf.reshape(N, -1))).any(-1).nonzero()[0])})")
+        return False
+    rr = random.Random(case["seed"] ^ 0xB16)
+    items = [i_ for i_ in [0, N - 1, N - 2, rr.randrange(N), 2 ** 14 - 1, 2 ** 14, 2 ** 16 - 1, 2 ** 16] if 0 <= i_ < N]
+    sl = lambda t_, b_, s_: t_[s_] if b_ else t_
+    ok = True
+    for i_ in items:
+        one = (f(*[sl(t_, b_, slice(i_, i_ + 1)) for t_, b_ in zip(flat, isb)], slice(i_, i_ + 1)) if fn == "lti"
+               else f(*[sl(t_, b_, slice(i_, i_ + 1)) for t_, b_ in zip(flat, isb)]))
+        if not torch.equal(one.reshape(yf[i_].shape), yf[i_]):
+            ctx.fail({**pub(case), "item": i_}, f"big-item: item {i_} of {fn} on a batch of {N} is {yf[i_].reshape(-1)[:4].tolist()} but the same call on that item alone gives {one.reshape(-1)[:4].tolist()}")
+            ok = False
+            break
+    for a_ in [c_ for c_ in (1, N // 2, N - 1, 2 ** 14) if 0 < c_ < N]:
+        parts = []
+        for s_ in (slice(0, a_), slice(a_, N)):
+            parts.append(f(*[sl(t_, b_, s_) for t_, b_ in zip(flat, isb)], s_) if fn == "lti" else f(*[sl(t_, b_, s_) for t_, b_ in zip(flat, isb)]))
+        cat = torch.cat([p_.reshape((-1,) + tuple(yf.shape[1:])) for p_ in parts], 0)
+        if not torch.equal(cat, yf):
+            bad = int((cat.reshape(N, -1) != yf.reshape(N, -1)).any(-1).nonzero()[0])
+            ctx.fail({**pub(case), "cut": a_, "item": bad}, f"big-split: {fn} on {N} items differs from the concatenation of the calls on [:{a_}] and [{a_}:] (first at item {bad})")
+            ok = False
+            break
+    # exact equations on sampled items, the last one included
+    for i_ in (0, N - 1, rr.randrange(N)):
+        its = [sl(t_, b_, i_).double().tolist() for t_, b_ in zip(flat, isb)]
+        if fn == "bmv":
+            want = [sum((Fraction(a) * Fraction(b) for a, b in zip(row, its[1])), Fraction(0)) for row in its[0]]
+        elif fn == "bvv":
+            want = [Fraction(a) * Fraction(b) for a in its[0] for b in its[1]]
+        elif fn == "bvmv":
+            want = [sum((Fraction(its[0][a]) * Fraction(its[1][a][b]) * Fraction(its[2][b]) for a in range(n) for b in range(m)), Fraction(0))]
+        else:
+            pick = (lambda t_: (t_.reshape((N,) + t_.shape[len(shape):])[i_] if case["matbatched"] else t_).double().tolist())
+            want, _ = frac_affine(pick(A), pick(B), pick(c), its[0], its[1])
+        got = yf[i_].double().reshape(-1).tolist()
+        for q_, (w, gv) in enumerate(zip(want, got)):
+            if abs(Fraction(gv) - w) > 64 * eps * (abs(float(w)) + 64.0):
+                ctx.fail({**pub(case), "item": i_}, f"big-eq: item {i_} of {N} ({fn}), entry {q_} = {gv!r}, exact value {float(w)!r}")
+                ok = False
+    return ok
+
+
+def run_big(ctx: Ctx, cases):
+    for case in cases:
+        guarded(ctx, case, check_big)
+        ctx.note_case(("big", case["fn"], tuple(case["shape"]), case["n"], case["m"], case["dtype"], case["matbatched"]), True)
+        ctx.count("big." + case["fn"])
+
+
 # ============================================================================= deterministic corner corpora (run first)
 
 def _lin(k, sys, n, m, p, T, full, events, **kw):
@@ -2615,6 +2852,13 @@ LIN_CORPUS = [
     _lin(13, "lti", 2, 2, 2, 1, [], [_call(), _call(True), _call(same=True)], special={"A": "eye", "B": "zero"}, c1=False, c2=False),
     _lin(14, "lti", 3, 1, 3, 1, [2], [_call(scalar=False), _call(True), dict(_call(bx=[2], bu=[2]), mode="no_grad"), dict(_call(True), mode="grad", kw=True)],
          special={"C": "eye", "D": "zero"}, c2=False, bA=[], bB=[], bC=[], bD=[], bc1=[]),
+    # shapes fresh in the process, first used under inference_mode / no_grad, then with autograd (and the other way round)
+    _lin(16, "lti", 5, 3, 2, 1, [11], [dict(_call(bx=[11], bu=[11]), mode="inference"), dict(_call(bx=[11], bu=[11]), mode="grad"), dict(_call(bx=[11], bu=[11]), mode="no_grad"),
+                                       dict(_call(True, bu=[11]), mode="grad"), _call(True, bu=[11])], bA=[], bB=[], bC=[], bD=[], bc1=[], bc2=[]),
+    _lin(17, "ltvp", 4, 2, 3, 3, [7], [dict(_call(bx=[7], bu=[7]), mode="no_grad"), dict(_call(True, bu=[7]), mode="grad"), dict(_call(True, bu=[7]), mode="inference"),
+                                       dict(_call(True, bu=[7]), mode="grad", kw=True)]),
+    # a long stacked time axis (4097 slices): the last slice, one past it, the wrapped first one
+    _lin(18, "ltvi", 2, 1, 1, 4097, [], [_set("assign", 4096), _call(), _call(), _set("assign", -4097), _call(), _set("assign", 2048), _call(), _call(True)], c1=False, c2=False),
     # the same calls spelled with keywords and run under every grad mode
     _lin(15, "lti", 2, 2, 2, 1, [3], [dict(_call(bx=[3], bu=[3]), mode="no_grad"), dict(_call(bx=[3], bu=[3]), mode="inference", kw=True), dict(_call(True, bu=[3]), mode="grad"),
                                       dict(_call(True, bu=[]), kw=True), _set("reset", 2), dict(_call(bx=[], bu=[3]), mode="no_grad", kw=True)]),
@@ -2667,6 +2911,24 @@ NLS_CORPUS = [
          [_ncall([1.0], [2.0], True), _nref(None, None, "live"), _R, _ncall([3.0], [1.0]), _R, {"ev": "twin", "op": "from_main"}, {"ev": "twin", "op": "call"}, {"ev": "twin", "op": "to_main"}, _R]),
 ]
 NLS_CORPUS.append(dict(NLS_CORPUS[2], corpus=5, seed=9105, dtype="float32"))
+# time stamps above 2^24 with float32 states (2^24+1, 2^24+3, a UNIX epoch), above 2^53 with float64: f = x cos(t - T0) + u (t - T0),
+# the epoch subtracted in exact integer arithmetic; forwards and set_refpoint(t=None) must see the same exact clock
+def _big(k, T0, dtype):
+    tv = ("V", 2)
+    return dict(_nls(k, 1, 1, [("+", ("*", _X0, ("K", tv)), ("*", ("V", 1), tv))], [("*", _X0, tv)],
+                     [_set("assign", T0 + 1), _ncall([1.0], [0.5]), _ncall([2.0], [0.25]), _nref(None, None, None), _R, _ncall([1.5], [1.0]), _R,
+                      _set("reset", T0 + 3), _ncall([1.0], [1.0]), dict(_nref([0.5], [2.0], {"v": T0 + 5, "as": "int64"}), kw=True), _R,
+                      dict(_set("assign", T0 + 7), t={"v": T0 + 7, "as": "int64"}), _ncall([0.25], [0.5]), _nref(None, None, "live"), _ncall([1.0], [0.0]), _R],
+                     dtype=dtype), T0=T0)
+
+
+# exact coincidences: reference time = clock, clock - 1, clock + 1; reference state = the last call's state (another tensor
+# with the same values); a time assigned to the value it already has
+NLS_CORPUS.append(resolve_rel(_nls(12, 1, 1, [("*", _X0, ("V", 2))], [("+", _X0, ("*", ("V", 1), ("V", 2)))],
+                                   [_ncall([1.5], [0.5]), _ncall([1.5], [0.5]), _nref([1.5], [0.5], {"rel": 0, "as": "int64"}), _R, _nref(None, None, None), _R,
+                                    _nref([1.5], [0.5], {"rel": -1, "as": "int64"}), _R, _nref([1.5], [0.5], {"rel": 1, "as": "int64", "dim1": True}), _R,
+                                    {"ev": "assign", "t": {"rel": 0, "as": "int64"}}, _ncall([1.5], [0.5]), _R, _set("reset", 3), _nref(None, None, {"rel": 0, "as": "int64"}), _R])))
+NLS_CORPUS += [_big(8, 2 ** 24, "float32"), _big(9, 1_700_000_000, "float32"), _big(10, 2 ** 53, "float64"), _big(11, 2 ** 31, "float64")]
 # positional and keyword spellings, grad modes, a user function that raises inside forward / set_refpoint
 NLS_CORPUS.append(_nls(7, 2, 1, [("*", _X0, ("V", 2)), ("+", _X1, ("*", ("V", 3), _X0))], [("-", _X0, ("V", 2))],
                        [dict(_ncall([1.0, 2.0], [0.5]), mode="no_grad", kw=True), dict(_nref([0.5, 1.5], [2.0], {"v": 3, "as": "int64"}), kw=False), dict(_R, mode="no_grad"),
@@ -2703,6 +2965,13 @@ BMV_CORPUS = [
     _bmv(10, "bmv", 2, 2, [2], [2], [], scale=1e40, dyadic=False),
     _bmv(11, "bvv", 7, 7, [2], [2], [2], layout=["expand", "expand", "c"]),
     _bmv(12, "bvv", 2, 3, [2], [2], [2], out=True),
+    # shapes that are fresh in the process, first seen under inference_mode / no_grad, then with autograd
+    _bmv(22, "bmv", 5, 4, [13], [13], [13], mode="inference", modes=["grad", "plain", "no_grad", "grad"]),
+    _bmv(23, "bvv", 6, 5, [11], [11], [11], mode="no_grad", modes=["grad", "inference", "grad"]),
+    _bmv(24, "bvmv", 5, 6, [17], [17], [17], [17], mode="inference", modes=["grad", "plain"]),
+    _bmv(25, "bmv", 6, 6, [19], [19], [], mode="grad", modes=["inference", "grad"]),
+    _bmv(26, "bvv", 7, 4, [23], [23], [23], mode="inference", modes=["grad", "plain", "grad"]),
+    _bmv(27, "bvmv", 4, 7, [29], [29], [29], [29], mode="no_grad", modes=["inference", "grad"]),
     {"kind": "bmv", "corpus": 18, "seed": 9218, "fn": "lti", "full": [2, 3], "n": 2, "m": 1, "dtype": "float64", "b1": [3], "b2": [2, 1], "b3": [1, 3], "bx": [], "bu": [2, 3],
      "hasc": True, "lie": False, "out": False, "dseed": 718},
     {"kind": "bmv", "corpus": 19, "seed": 9219, "fn": "lti", "full": [3], "n": 3, "m": 2, "dtype": "float32", "b1": [], "b2": [3], "b3": [], "bx": [3], "bu": [1],
@@ -2715,12 +2984,12 @@ BMV_CORPUS = [
     _bmv(16, "bmv", 3, 2, [3], [3], [], mode="grad"),
     _bmv(17, "bvmv", 2, 2, [3], [3], [3], [3], mode="inference"),
 ]
-CORPORA = {"multi": CORPUS, "lin": LIN_CORPUS, "nls": NLS_CORPUS, "bmv": BMV_CORPUS}
+CORPORA = {"multi": CORPUS, "lin": LIN_CORPUS, "nls": NLS_CORPUS, "bmv": BMV_CORPUS, "big": BIG_CORPUS}
 
 
 # ============================================================================= driver
 
-GEN = {"clock": gen_clock_case, "multi": gen_multi_case, "lin": gen_lin_case, "nls": gen_nls_case, "bmv": gen_bmv_case}
+GEN = {"big": gen_big_case, "clock": gen_clock_case, "multi": gen_multi_case, "lin": gen_lin_case, "nls": gen_nls_case, "bmv": gen_bmv_case}
 
 
 def run(ctx: Ctx):
@@ -2735,6 +3004,7 @@ def run(ctx: Ctx):
     run_lin(ctx, [dict(c) for c in LIN_CORPUS])
     run_bmv(ctx, [dict(c) for c in BMV_CORPUS])
     run_nls(ctx, [dict(c) for c in NLS_CORPUS], 10 ** 6)
+    run_big(ctx, [dict(c) for c in (BIG_CORPUS if not q else BIG_CORPUS[:5])] + [gen_big_case(s, q) for s in seeds(ctx.pick(2, 40))])
     run_clock(ctx, [gen_clock_case(s, q) for s in seeds(ctx.pick(600, 6000))])
     run_multi(ctx, [gen_multi_case(s, q) for s in seeds(ctx.pick(400, 5000))])
     run_lin(ctx, [gen_lin_case(s, q) for s in seeds(ctx.pick(600, 8000))])
@@ -2770,6 +3040,8 @@ def replay(ctx: Ctx, case) -> bool:
         run_clock(ctx, [full])
     elif kind == "multi":
         run_multi(ctx, [full])
+    elif kind == "big":
+        run_big(ctx, [full])
     elif kind == "lin":
         run_lin(ctx, [full])
     elif kind == "bmv":
